@@ -1,6 +1,7 @@
 SPECIFICATION Spec
 CONSTANT Depth = 3
 CONSTANT RcvMode = 1
+CONSTANT PeerRcv = 1
 CONSTANT SndMode = 2
 CONSTANT PeerH1 = 5
 CONSTANT PeerH3 = 8
